@@ -212,8 +212,9 @@ def culprits(text, flags, indent, failing):
       * with every StringValue neutralised (value := "x") the failure persists: a non-string cause --
         "definition:<Kind>" when that definition printed alone still fails, else
         "definitions-interact:<Kind>-after-<Kind|type-system-definition>" for the first failing prefix;
-      * for every definition that fails when printed alone: the first string of it whose neutralisation
-        removes the failure -- "<description|value>/<block|quoted>" -- or "several-strings".
+      * for every definition that fails when printed alone: every string of it that breaks the definition
+        with all other strings neutralised -- "<description|value>/<block|quoted>" -- or
+        "several-strings-together" when only a combination does.
     """
     from py_gql.lang import parse, print_ast
     from mc.ref import visit as RV
@@ -260,24 +261,29 @@ def culprits(text, flags, indent, failing):
         if not fails(single):
             continue
         n = len(strings_of(single))
-        found = None
+        found = []
         for m in range(n):
+            # every string but the m-th neutralised: does the m-th alone break it?
             t = parse(text, **flags)
             single = type(t)(definitions=[t.definitions[k]])
-            P = strings_of(single)[m]
-            form = "block" if P.node.block else "quoted"
-            P.node.value = "x"
-            if not fails(single):
-                found = "%s/%s" % ("description" if P.slot == "description" else "value", form)
-                break
-        if found is None:
+            ss = strings_of(single)
+            form = "block" if ss[m].node.block else "quoted"
+            where = "description" if ss[m].slot == "description" else "value"
+            for q, P in enumerate(ss):
+                if q != m:
+                    P.node.value = "x"
+            if fails(single):
+                found.append("%s/%s" % (where, form))
+        if not found:
             t = parse(text, **flags)
             single = type(t)(definitions=[t.definitions[k]])
             for P in strings_of(single):
                 P.node.value = "x"
-            found = "several-strings" if not fails(single) else None
-        if found and found not in labels:
-            labels.append(found)
+            if not fails(single):
+                found.append("several-strings-together")
+        for f in found:
+            if f not in labels:
+                labels.append(f)
     return labels or ["unexplained"]
 
 
